@@ -32,7 +32,7 @@ def text(n, indent, opt=False, comma=''):
     if opt:
         rules.append('optional: true')
     ann = (' // {%s}' % ', '.join(rules)) if rules else ''
-    props = [pad + '  "k%d": ' % k + text(v, indent + 1, bool(o), ',' if i + 1 < len(n[3]) else '') for i, (k, o, v) in enumerate(n[3])]
+    props = [pad + '  "Kx%d": ' % k + text(v, indent + 1, bool(o), ',' if i + 1 < len(n[3]) else '') for i, (k, o, v) in enumerate(n[3])]
     return '{' + ann + '\n' + ''.join(x + '\n' for x in props) + pad + '}' + comma
 
 
@@ -213,7 +213,7 @@ class Prop:
         out = []
         for item in s.split(','):
             k, o, fr = item.split(':')
-            out.append('%s:%s:%s' % (k[1:] if k.startswith('k') else k, o, fr[2:] if fr.startswith('@t') else (fr or '0')))
+            out.append('%s:%s:%s' % (k[2:] if k.startswith('Kx') else k, o, fr[2:] if fr.startswith('@t') else (fr or '0')))
         return ','.join(out)
 
     def project(self, out):
@@ -244,12 +244,18 @@ class Prop:
         exp = ','.join('%d:%d:%d' % p for p in want[1]) or '-'
         if self.norm_keys(keys) != exp:
             return 'compiled properties %s, expected own + inherited = %s' % (self.norm_keys(keys), exp)
-        ek = ','.join('k%d' % p[0] for p in want[1]) or '-'
+        ek = ','.join('Kx%d' % p[0] for p in want[1]) or '-'
         if ex is not None and ex != ek:
             return 'Example() shows keys %s, expected %s' % (ex, ek)
-        ik = ','.join('k%d:%d' % (p[0], p[1]) for p in want[1]) or '-'
+        ik = ','.join('Kx%d:%d' % (p[0], p[1]) for p in want[1]) or '-'
         if info is not None and info != ik:
             return 'OpenAPI property listing shows %s, expected %s' % (info, ik)
+        # keys at every depth of the example (nested objects of inherited types too) are spelled as in the source
+        md = re.search(r' deep=(\S+)', out)
+        if md and md.group(1) != '-':
+            odd = [k for k in md.group(1).split(',') if not re.match(r'Kx\d+$', k)]
+            if odd:
+                return 'Example() has keys that no type of the schema spells that way: %s' % ','.join(odd)
         return None
 
     def shrink_candidates(self, case):
